@@ -469,7 +469,8 @@ func roundTripCase(w *gen.Writer, q query.Q) {
 		p2, err := overWire(p, &webserverv1.Q{})
 		if err != nil {
 			impl = "marshal-error|err"
-			c.Go, c.Key = "the converted query cannot be marshalled: "+err.Error(), "not-marshallable:"+kindOf(showQ(q))
+			c.Go, c.Key = "the converted query cannot be marshalled: "+err.Error(), "not-marshallable:non-utf8-string:query"
+			c.In = "" // outside the model: strings are opaque tokens there
 			return
 		}
 		q2, err := query.QFromProto(p2)
@@ -609,7 +610,7 @@ func (s *fakeStream) SetTrailer(metadata.MD)                        {}
 
 func genSearchOpts(r *gen.Rand) (*webserverv1.SearchOptions, *zoekt.SearchOptions) {
 	if r.Chance(1, 3) {
-		return nil, nil
+		return nil, &zoekt.SearchOptions{} // unset on the wire: the searcher gets the zero options, never nil
 	}
 	p := &webserverv1.SearchOptions{}
 	want := &zoekt.SearchOptions{}
@@ -646,8 +647,8 @@ func genSearchOpts(r *gen.Rand) (*webserverv1.SearchOptions, *zoekt.SearchOption
 func handlerCase(w *gen.Writer, r *gen.Rand, which string, p *webserverv1.Q) {
 	var t envTable
 	t.walkPQ(p)
-	in := fmt.Sprintf("handler %s %s %s", which, showPQ(p), t.String())
 	fs := &fakeStreamer{}
+	optsSet := false
 	srv := grpcserver.NewServer(fs)
 	impl, msg, optsNote := "panic", "", ""
 	func() {
@@ -660,6 +661,7 @@ func handlerCase(w *gen.Writer, r *gen.Rand, which string, p *webserverv1.Q) {
 		switch which {
 		case "search":
 			po, want := genSearchOpts(r)
+			optsSet = po != nil
 			req, e := overWire(&webserverv1.SearchRequest{Query: p, Opts: po}, &webserverv1.SearchRequest{})
 			if e != nil {
 				panic("harness: request not marshallable: " + e.Error())
@@ -677,8 +679,9 @@ func handlerCase(w *gen.Writer, r *gen.Rand, which string, p *webserverv1.Q) {
 			var inner *webserverv1.SearchRequest
 			if !(p == nil && r.Chance(1, 3)) { // sometimes the whole inner request is unset
 				inner = &webserverv1.SearchRequest{Query: p, Opts: po}
+				optsSet = po != nil
 			} else {
-				want = nil
+				want = &zoekt.SearchOptions{}
 			}
 			req, e := overWire(&webserverv1.StreamSearchRequest{Request: inner}, &webserverv1.StreamSearchRequest{})
 			if e != nil {
@@ -704,6 +707,7 @@ func handlerCase(w *gen.Writer, r *gen.Rand, which string, p *webserverv1.Q) {
 			case 3:
 				po, want = &webserverv1.ListOptions{Field: webserverv1.ListOptions_REPO_LIST_FIELD_REPOS}, &zoekt.ListOptions{Field: zoekt.RepoListFieldRepos}
 			}
+			optsSet = po != nil
 			req, e := overWire(&webserverv1.ListRequest{Query: p, Opts: po}, &webserverv1.ListRequest{})
 			if e != nil {
 				panic("harness: request not marshallable: " + e.Error())
@@ -715,7 +719,15 @@ func handlerCase(w *gen.Writer, r *gen.Rand, which string, p *webserverv1.Q) {
 		}
 		switch {
 		case err == nil && fs.called:
-			impl = "ok " + showQ(fs.gotQ)
+			ov := reflect.ValueOf(fs.gotOpts)
+			o := "wire"
+			switch {
+			case ov.IsNil():
+				o = "nil"
+			case !optsSet && ov.Elem().IsZero():
+				o = "zero"
+			}
+			impl = "ok " + showQ(fs.gotQ) + " opts=" + o
 		case err == nil:
 			impl = "ok-without-streamer"
 		default:
@@ -725,7 +737,8 @@ func handlerCase(w *gen.Writer, r *gen.Rand, which string, p *webserverv1.Q) {
 			}
 		}
 	}()
-	c := gen.Case{In: in, Impl: impl, Class: "handler:" + which + ":" + kindOf(impl), Nontrivial: true}
+	in := fmt.Sprintf("handler %s %s %s %s", which, showPQ(p), b01(optsSet), t.String())
+	c := gen.Case{In: in, Impl: impl, Class: "handler:" + which + ":" + strings.Fields(impl)[0], Nontrivial: true}
 	switch {
 	case impl == "panic":
 		c.Go = "handler panics on a well-formed request: " + firstLine(msg)
@@ -843,6 +856,27 @@ func apiCases(w *gen.Writer, r *gen.Rand, n int) {
 	}
 }
 
+// nonUTF8Cases: protobuf `string` fields only carry valid UTF-8 (FileMatch.FileName is `bytes` for that reason); values
+// whose other string fields hold arbitrary bytes — file paths, patterns — cannot be marshalled at all.
+func nonUTF8Cases(w *gen.Writer) {
+	bad := "dir\xff\xfe/name"
+	try := func(field string, m proto.Message) {
+		c := gen.Case{Class: "non-utf8:" + field, Nontrivial: true, Detail: gen.Detail(map[string]any{"kind": "api", "type": field})}
+		if _, err := proto.Marshal(m); err != nil {
+			c.Go = field + " holding a non-UTF-8 string cannot be marshalled: " + err.Error()
+			c.Key = "not-marshallable:non-utf8-string:" + field
+		}
+		w.Emit(c)
+	}
+	try("FileMatch.FileName", (&zoekt.FileMatch{FileName: bad}).ToProto())
+	try("FileMatch.SubRepositoryPath", (&zoekt.FileMatch{SubRepositoryPath: bad}).ToProto())
+	try("Repository.FileTombstones", (&zoekt.Repository{FileTombstones: map[string]struct{}{bad: {}}}).ToProto())
+	try("RepositoryBranch.Name", (&zoekt.RepositoryBranch{Name: bad}).ToProto())
+	try("query", query.QToProto(&query.Substring{Pattern: bad}))
+	try("query", query.QToProto(query.NewFileNameSet(bad)))
+	try("query", query.QToProto(&query.Branch{Pattern: bad}))
+}
+
 // ---------------------------------------------------------------- corpus / replay / main
 
 type stored struct {
@@ -948,5 +982,6 @@ func main() {
 		handlerCase(w, r, []string{"search", "stream", "list"}[i%3], p)
 	}
 	apiCases(w, r, f.N(150, 5000))
+	nonUTF8Cases(w)
 	endToEnd(w, r, f)
 }
